@@ -72,6 +72,7 @@ class ContractTask(Task):
         timeout = 10000 if tier == "quick" else 60000
         ctx = Ctx(unit, check_feasibility=False)
         outcome, err = None, None
+        pr = None
         try:
             pr = C.run_contract_path(c, reg, ctx)
             outcome = pr.outcome
@@ -98,6 +99,13 @@ class ContractTask(Task):
         r = {"obs": out, "covered": sorted(ctx.covered), "assumptions": list(reg.assumptions)}
         if getattr(ctx, "bounded", None):
             r["oos"] = "; ".join(ctx.bounded)
+        if tier == "thorough" and not os.environ.get("VERIF_NO_XCHECK"):
+            # CPython cross-check of the interpreter (DESIGN 4.3): a model of this path's condition, to be run natively
+            from . import xcheck
+            try:
+                r["xcheck"] = xcheck.witness(c, reg, ctx, pr, outcome, unit)
+            except Exception as e:      # the cross-check must never take a verification run down
+                r["xcheck"] = {"skip": "xcheck-error:" + type(e).__name__}
         return r
 
     # stage 3
@@ -188,7 +196,15 @@ class ContractTask(Task):
             obs.append(ob(c.target + ".requires-satisfiable", "vacuous", detail="no path satisfies the precondition"))
         if not obs:
             obs.append(ob(c.target + ".nonvacuous", "vacuous", detail="no obligation generated"))
-        return {"obligations": obs,
+        xc = None
+        if tier == "thorough" and any("xcheck" in p for p in partials):
+            from . import xcheck
+            try:
+                xc = xcheck.run_task(c, partials, None)
+            except Exception:
+                xc = {"function": c.target, "paths_in_scope": 0, "paths_checked": 0, "agree": 0, "mismatches": [],
+                      "skipped": {"xcheck-error:" + traceback.format_exc().strip().splitlines()[-1][:120]: 1}}
+        return {"obligations": obs, "xcheck": xc,
                 "info": {"target": c.target, "sha": fd.sha if fd else None,
                          "lines": [fd.node.lineno, fd.node.end_lineno] if fd else None,
                          "paths": len(partials), "covered": sorted(covered),
@@ -633,6 +649,26 @@ def main(prop, tier, seed, jobs=None, update_baseline=False):
     }
     if hasattr(mod, "evidence_extra"):
         ev["coverage"].update(mod.evidence_extra(results))
+    xcs = [r["xcheck"] for r in results if r.get("xcheck")]
+    if tier == "thorough" and xcs:
+        from . import xcheck
+        ev["coverage"]["xcheck"] = xcheck.merge(xcs)
+        enforced = prop in XCHECK_ENFORCED
+        ev["coverage"]["xcheck"]["enforced"] = enforced
+        for m in ev["coverage"]["xcheck"]["mismatches"]:
+            msg = (f"xcheck:{m['function']} path {m['decisions']}", "the symbolic path and CPython disagree on "
+                   + "; ".join(f"{d['what']} (symbolic {str(d['symbolic'])[:120]} / CPython {str(d['native'])[:120]})"
+                               for d in m["differences"]) + f" for inputs {str(m['inputs'])[:400]}")
+            if enforced:
+                checker_err.append(msg)
+                ev["coverage"]["checker_errors"].append(list(map(str, msg)))
+                if status in (0, 2):
+                    status = 3
+            else:
+                lines.append(f"XCHECK-MISMATCH property={prop} {msg[0]}: {msg[1][:600]}")
+        x = ev["coverage"]["xcheck"]
+        lines.append(f"{prop} xcheck: functions={x['functions']} paths_in_scope={x['paths_in_scope']} checked={x['paths_checked']} "
+                     f"agree={x['agree']} skipped={sum(x['skipped'].values())} mismatches={len(x['mismatches'])}")
     evdir = os.environ.get("VERIF_EVIDENCE_DIR") or os.path.join(ROOT, "evidence")   # override: runs against scratch trees
     os.makedirs(evdir, exist_ok=True)
     with open(os.path.join(evdir, f"{prop}.json"), "w") as f:
@@ -695,6 +731,11 @@ def match_known(known, name, fl):
         return k
     return None
 
+
+# a cross-check mismatch is a CHECKER-ERROR (exit 3) for the properties on whose unchanged tree the cross-check was seen
+# quiet (every comparison artefact found there was turned into a skip rule); for the others it is printed as
+# XCHECK-MISMATCH and recorded in the evidence without touching the exit code, until they have been looked at
+XCHECK_ENFORCED = {"C12", "C19", "C20", "C05", "C06", "C07", "C16", "C17", "C13", "C10", "C15", "C04"}
 
 DROPPED = ["decorators (@attrs/@define fields become typed pre-state; @implementer; @m.input/@m.output/@m.state replaced by "
            "Automat dispatch semantics)", "docstrings", "log.msg/log.err/print/debug calls", "self._timing.add(...)",
